@@ -371,6 +371,18 @@ func addrPath(base string, path []int) string {
 	return base
 }
 
+// objTypeFact: the object holding p was allocated as an et. Named struct types have positive
+// identifiers; every other allocation (variables of other types, arrays, slice backing stores)
+// has objtype <= 0, so it is never mistaken for an object of a lock-protected struct type.
+func (e *Engine) objTypeFact(p string, et types.Type) string {
+	if nt, ok := et.(*types.Named); ok {
+		if _, isStruct := nt.Underlying().(*types.Struct); isStruct {
+			return fmt.Sprintf("(= (objtype (pobj %s)) %d)", p, e.typeID(nt))
+		}
+	}
+	return fmt.Sprintf("(<= (objtype (pobj %s)) 0)", p)
+}
+
 // typeFacts returns facts that hold of every value of Go type t denoted by term.
 func (c *Ctx) typeFacts(term string, t types.Type, alloc string) string {
 	switch u := t.Underlying().(type) {
@@ -389,12 +401,22 @@ func (c *Ctx) typeFacts(term string, t types.Type, alloc string) string {
 		if _, isPtr := u.(*types.Pointer); !isPtr {
 			kind = fmt.Sprintf("(ismapobj (pobj %s))", term)
 		}
+		if pt, isPtr := u.(*types.Pointer); isPtr && c.tid != nil {
+			// a *T that addresses a whole object addresses an object allocated as a T
+			ot := fmt.Sprintf("(<= (objtype (pobj %s)) 0)", term)
+			if nt, ok := pt.Elem().(*types.Named); ok {
+				if _, isStruct := nt.Underlying().(*types.Struct); isStruct {
+					ot = fmt.Sprintf("(= (objtype (pobj %s)) %d)", term, c.tid(nt))
+				}
+			}
+			kind = fmt.Sprintf("(and %s (=> (= (ppath %s) here) %s))", kind, term, ot)
+		}
 		if alloc == "" {
 			return fmt.Sprintf("(or (= %s nil) %s)", term, kind)
 		}
 		return fmt.Sprintf("(or (= %s nil) (and (< (pobj %s) %s) %s))", term, term, alloc, kind)
 	case *types.Slice:
-		f := fmt.Sprintf("(and (<= 0 (soff %s)) (<= 0 (slen_ %s)) (<= (slen_ %s) (scap %s)) (<= (scap %s) 9223372036854775807) (=> (= (sbase %s) nil) (= %s nilslice)) (or (= (sbase %s) nil) (and (not (ismapobj (pobj (sbase %s)))) (not (islocalobj (pobj (sbase %s))))))", term, term, term, term, term, term, term, term, term, term)
+		f := fmt.Sprintf("(and (<= 0 (soff %s)) (<= 0 (slen_ %s)) (<= (slen_ %s) (scap %s)) (<= (scap %s) 9223372036854775807) (=> (= (sbase %s) nil) (= %s nilslice)) (or (= (sbase %s) nil) (and (not (ismapobj (pobj (sbase %s)))) (not (islocalobj (pobj (sbase %s)))) (=> (= (ppath (sbase %s)) here) (<= (objtype (pobj (sbase %s))) 0))))", term, term, term, term, term, term, term, term, term, term, term, term)
 		if alloc != "" {
 			f += fmt.Sprintf(" (or (= (sbase %s) nil) (< (pobj (sbase %s)) %s))", term, term, alloc)
 		}
